@@ -6,17 +6,20 @@ import tempfile
 
 import apel
 import clirun
+import toprun
 import common
 import mainrun
 from common import Check, lean_batch
 
-TRUSTED = ['Lean 4.33.0 kernel (+ leanchecker in the thorough tier)',
+TRUSTED = ['harness/toprun.py (worlds materialised as real trees, the real peltool.main() run end to end in-process with nothing replaced, recursive snapshots, comparison with the driver op runmain = Pel.runMain of PelModel/Top.lean)',
+           'Lean 4.33.0 kernel (+ leanchecker in the thorough tier)',
            'axioms: propext, Classical.choice, Quot.sound only (audited per theorem)',
            'harness/c11.py + clirun.py (tree generator, recursive snapshots, in-process CLI runs), Drv.lean protocol parsing',
            'harness/mainrun.py (recorders substituted for the functions main() calls and for os.path.isdir/isfile, os.walk, os.remove; '
            'command-line generator; comparison with PelModel/Main.lean)',
            'compiled driver peldrv agrees with the kernel reading of the same definitions']
-ASSUME = ['real filesystem semantics (symlinks, special files, permissions) are outside the model',
+ASSUME = ['whole-command model: -o names the -p directory iff absent/empty or the same string; the -f file is not a top-level file of the -p directory; --json is composed in batch form (an output name equal to another input file name is outside the composition)',
+          'real filesystem semantics (symlinks, special files, permissions) are outside the model',
           'os.walk order is a parameter: for --delete the removed file must be one of the candidates',
           'main() is modelled from the namespace argparse returns (Pel.Args), outside a BMC (the parser has -p, not -A); the argument '
           'parser itself (abbreviations, repeated options, values beginning with "-") is exercised through real command lines, not modelled',
@@ -136,6 +139,8 @@ def run(tier, seed):
             shutil.rmtree(p, ignore_errors=True)
     # main() itself: which function is reached with which arguments (PelModel/Main.lean), all mode-option combinations
     n_main = mainrun.check_main(ck, tier, 'all')
+    # the WHOLE command end to end on real trees vs Pel.runMain (PelModel/Top.lean), and the command-level properties on the real runs
+    toprun.check_top(ck, tier, 'effects')
     return ck.finish(RULE, TRUSTED, ASSUME, extra={'main_cases': n_main, 'main_sweep': 'all 8192 subsets of the thirteen mode options (x both '
                                                    'return values of parseAndPrintPELFile when -f is given)' if thorough else
                                                    '1024 sampled subsets of the thirteen mode options'})
